@@ -54,34 +54,46 @@ def dV (l : Level) : Rat := l.dx.foldl (· * ·) 1
 def sumMasked (data : List Rat) (m : List Bool) : Rat :=
   (List.zip data m).foldl (fun acc (v, k) => if k then acc + v else acc) 0
 
-/-- volume_integral over levels `0 … L` (`lvls` already truncated to the limit) -/
-def integral (repaired : Bool) (lvls : List Level) : Option Rat := do
-  let r := boxRez repaired lvls
-  let n := lvls.length
-  let mut tot : Rat := 0
-  for (lv, k) in List.zip lvls (List.range n) do
-    if k + 1 < n then
-      let fine := lvls.getD (k + 1) lv
-      for b in lv.boxes do
-        let m ← mask fine r b
-        tot := tot + dV lv * sumMasked b.data m
-    else
-      for b in lv.boxes do
-        tot := tot + dV lv * b.data.foldl (· + ·) 0
-  return tot
+/-- contribution of one coarse box: `dV * Σ data[mask]`; `none` = numpy would raise -/
+def boxMasked (fine : Level) (r : Nat) (lv : Level) (b : Box) : Option Rat :=
+  (mask fine r b).map fun m => dV lv * sumMasked b.data m
+
+/-- a masked level: the boxes in order, accumulated as `volume_integral` does -/
+def levelMasked (fine : Level) (r : Nat) (lv : Level) : List Box → Option Rat
+  | [] => some 0
+  | b :: bs => do
+    let x ← boxMasked fine r lv b
+    let rest ← levelMasked fine r lv bs
+    pure (x + rest)
+
+def levelFull (lv : Level) : Rat := (lv.boxes.map fun b => dV lv * b.data.foldl (· + ·) 0).foldl (· + ·) 0
+
+/-- levels `0 … L` (`lvls` already truncated to the limit): masked sums below the finest selected
+    level, plain sum on it -/
+def integralGo (r : Nat) : List Level → Option Rat
+  | [] => some 0
+  | [last] => some (levelFull last)
+  | lv :: fine :: rest => do
+    let s ← levelMasked fine r lv lv.boxes
+    let t ← integralGo r (fine :: rest)
+    pure (s + t)
+
+/-- volume_integral -/
+def integral (repaired : Bool) (lvls : List Level) : Option Rat := integralGo (boxRez repaired lvls) lvls
 
 /-- specification: a coarse cell counts iff no box of the next level covers its refinement -/
 def covered (fine : Level) (b : Box) (c : List Nat) : Bool :=
   fine.boxes.any fun fb =>
     (List.zip (List.zip fb.lo fb.hi) (List.zipWith (· + ·) b.lo c)).all fun ((l, h), x) => l ≤ 2 * x && 2 * x ≤ h
 
-def integralSpec (lvls : List Level) : Rat := Id.run do
-  let n := lvls.length
-  let mut tot : Rat := 0
-  for (lv, k) in List.zip lvls (List.range n) do
-    for b in lv.boxes do
-      let m := if k + 1 < n then (cells b.shape).map (fun c => !covered (lvls.getD (k + 1) lv) b c) else (cells b.shape).map fun _ => true
-      tot := tot + dV lv * sumMasked b.data m
-  return tot
+def levelSpec (fine lv : Level) : List Box → Rat
+  | [] => 0
+  | b :: bs => dV lv * sumMasked b.data ((cells b.shape).map fun c => !covered fine b c) + levelSpec fine lv bs
+
+/-- Σ over the cells of levels `0 … L` that no box of the next selected level covers, of value · dV -/
+def integralSpec : List Level → Rat
+  | [] => 0
+  | [last] => levelFull last
+  | lv :: fine :: rest => levelSpec fine lv lv.boxes + integralSpec (fine :: rest)
 
 end Pestle
